@@ -97,6 +97,11 @@ func (d dagWriter) DefineRelationship(ctx context.Context, from ID, t Relationsh
 	if err := d.validateResourcesExist(ctx, from, to); err != nil {
 		return err
 	}
+	// A resource related to itself is the shortest cycle; the descendants of to do not
+	// include to itself, so it has to be refused explicitly.
+	if from == to {
+		return graph.ErrCyclicDependency
+	}
 	descendants, err := d.retrieveDescendants(ctx, to)
 	if err != nil {
 		return err
@@ -117,6 +122,9 @@ func (d dagWriter) DefineFromOneToManyRelationships(ctx context.Context, from ID
 		return err
 	}
 	for _, rel := range rels {
+		if rel.To == from {
+			return graph.ErrCyclicDependency
+		}
 		descendants, err := d.retrieveDescendants(ctx, rel.To)
 		if err != nil {
 			return err
